@@ -54,6 +54,8 @@ impl Renderer {
 	/// audio output changes.
 	pub fn on_change_sample_rate(&mut self, sample_rate: u32) {
 		self.dt = 1.0 / sample_rate as f64;
+		#[cfg(feature = "verif-hooks")]
+		crate::verif::sync_point("renderer.sample_rate.store");
 		self.shared.sample_rate.store(sample_rate, Ordering::SeqCst);
 		self.resources.mixer.on_change_sample_rate(sample_rate);
 	}
